@@ -293,6 +293,31 @@ func run(c *core.Ctx) {
 			}
 		}
 	}
+	// the interesting character at particular offsets; large HTMLConcat calls followed by small ones
+	bi := 0
+	for _, n := range gen.BoundaryLens() {
+		for _, pad := range []string{"a", " ", "\u00e9", "&"} {
+			for _, sp := range []string{"<", "\x00", "\xff", "&", "\"", "\ufdd0", "\r\n", "\xe2\x82"} {
+				bi++
+				if !c.Mine(bi) {
+					continue
+				}
+				check(c, gen.Pad(pad, n)+sp, n < 300)
+				check(c, gen.Pad(pad, n)+sp+"tail", false)
+			}
+		}
+	}
+	if c.Shard == 0 {
+		big := gen.Pad("x<y&z ", 40960)
+		for i := 0; i < 3; i++ {
+			checkConcat(c, []string{big, big})
+			checkConcat(c, []string{"a", "<b>"})
+			checkConcat(c, []string{big})
+			checkConcat(c, []string{"c", "d", "e"})
+			checkConcat(c, []string{gen.Pad("q", 70000), "r"})
+			checkConcat(c, []string{"s", "t"})
+		}
+	}
 	// seeded hostile strings
 	r := c.Rng("soup")
 	n := c.N(200000, 2000000) / c.NShards
